@@ -53,7 +53,9 @@ LEVEL_TEXT = ("Machine-checked Coq theorems, for every column (list of optional 
               "them are part of the model - (raw, shift, form): offset-aware datetimes (wall-clock reading and UTC offset; value = the UTC "
               "instant floored to the second, computed in Coq) and equal values that print differently (0.0 / -0.0, Decimal 0 / -0); "
               "theorems: statistics of the cells = statistics of their values, extremes = least / greatest value, distinct count = "
-              "number of values whatever the forms, additivity.")
+              "number of values whatever the forms, additivity. Round 6: profile objects in the caller's hands (add / copy / read on a "
+              "store; theorem: an addition leaves its operands unchanged) and two-column frames (theorem: a column profile is read off "
+              "the frame's own schema) are part of the model and of every case.")
 LEVEL_NOTE = ("Trusted: Coq kernel + vm_compute; the hand-written model; numbers modelled as exact fixed-point integers (the generator "
               "keeps DOUBLE/DECIMAL values on a 10^-6 grid, where binary64 rounding preserves order, equality, truncation and the %f "
               "rendering); xxhash and numpy.histogram enter as oracle tables recomputed by the harness (theorems carry 'histogram counts "
@@ -80,6 +82,9 @@ RULE = ("one-column frames of every supported type (INTEGER, DOUBLE, DECIMAL, VA
         "another form (-0.0 for 0.0, Decimal('-0'), another DECIMAL scale, numpy.float64, True / False for 1 / 0, the same instant as an "
         "offset-aware datetime at one of 12 fixed or a random UTC offset in -23:59..+23:59); exhaustive alphabets with -0.0, Decimal -0 "
         "and offset-aware datetimes; text pool with non-NFC, case-folding and whitespace variants; "
+        "round 6: at the designated cut the operands of the sum are read again afterwards, added a second time, and copies of "
+        "them (copy.copy, pickle, deepcopy) are added; every column also as field 0 of a two-column frame (c, d) = (column, column "
+        "reversed) and of its mirror holding the same records under the names (d, c), profiled one after the other; "
         "a case is non-trivial when the column has a non-null value; distinct by canonical JSON")
 TRUSTED = [
     "C15 model (coq/Model/C15.v): numbers as exact fixed-point integers z/scale with int() = Z.quot; the harness maps binary64 / Decimal / "
@@ -346,9 +351,50 @@ def observe(case):
             quads.append([_num(s.count), _num(s.missing), _num(s.minimum), _num(s.maximum)])
             if case.get("cut") == k:
                 out["cut"] = _canon(t, s)
+                # the operands of the sum are the caller's objects: read them again after the addition, add them a
+                # second time, and add copies of them (copy.copy / copy.deepcopy / pickle round trip)
+                ca, cb = a.column("c"), b.column("c")
+                s2 = (a + b).column("c")
+                import copy
+                import pickle
+
+                s3 = (copy.copy(a) + pickle.loads(pickle.dumps(b))).column("c")
+                s4 = (copy.deepcopy(a) + copy.deepcopy(b)).column("c")
+                out["after"] = {"left": _canon(t, ca), "left_estimate": _num(ca.estimate_cardinality()),
+                                "right": _canon(t, cb), "right_estimate": _num(cb.estimate_cardinality()),
+                                "again": _canon(t, s2), "copies": [_canon(t, s3), _canon(t, s4)]}
         except Exception as e:
             return {"raise": type(e).__name__, "where": f"profile(a)+profile(b) at cut {k}", "msg": str(e)[:120]}
     out["quads"] = quads
+    if int(case.get("rep", 1)) == 1:
+        try:
+            out["pair"] = _pair(t, cells)
+        except Exception as e:
+            return {"raise": type(e).__name__, "where": "profiling a two-column frame and its mirror", "msg": str(e)[:120]}
+    return out
+
+
+def _frame2(t, names, rows):
+    from orso.dataframe import DataFrame
+    from orso.schema import FlatColumn, RelationSchema
+    from orso.types import OrsoTypes
+
+    if t == "UNTYPED":
+        return DataFrame(rows=rows, schema=list(names))
+    return DataFrame(rows=rows, schema=RelationSchema(name="t", columns=[FlatColumn(name=nm, type=getattr(OrsoTypes, t)) for nm in names]))
+
+
+def _pair(t, cells):
+    """Two frames holding the SAME records (field 0 = the column, field 1 = the column reversed): frame A names the
+    fields (c, d), its mirror B names them (d, c).  A is profiled, then B, nothing in between.  Returned:
+    [[swapped, name, reversed, profile, estimate], ...] for A.c, A.d, B.c, B.d."""
+    rows = [(py_value(t, v), py_value(t, w)) for v, w in zip(cells, cells[::-1])]
+    out = []
+    for swapped, names in ((False, ("c", "d")), (True, ("d", "c"))):
+        prof = _frame2(t, names, [tuple(r) for r in rows]).profile
+        for nm in ("c", "d"):
+            col = prof.column(nm)
+            out.append([swapped, nm, names.index(nm) == 1, _canon(t, col), _num(col.estimate_cardinality()) if col is not None else None])
     return out
 
 
@@ -414,7 +460,7 @@ def _order_spec(d):
     return (0 if up and down else (1 if up else -1)), tr
 
 
-def _judge(t, cells, w, estimate, literal=False):
+def _judge(t, cells, w, estimate, literal=False, hist=True):
     """The per-column clauses of the property, read literally, on ONE observed profile `w` of a frame holding
     `cells`.  F-C15-9 (known): VarcharProfiler cuts values to 64 characters before it computes frequent values,
     order and transitions; unless `literal`, those three are judged against the values cut to 64 characters
@@ -439,7 +485,7 @@ def _judge(t, cells, w, estimate, literal=False):
         if w["minimum"] != want_min or w["maximum"] != want_max:
             return f"minimum/maximum must be the true extremes (truncated toward zero; instants as epoch seconds) {want_min}/{want_max}, got {w['minimum']}/{w['maximum']}"
         hs = sum(c for _, c in w["histogram"])
-        if hs != len(ex):
+        if hist and hs != len(ex):
             return f"histogram counts must sum to the number of non-null values {len(ex)}, got {hs}"
         keyed = ex
         distinct = len(set(ex))
@@ -485,11 +531,11 @@ def _judge(t, cells, w, estimate, literal=False):
     return None
 
 
-def _first_difference(a, b):
+def _first_difference(a, b, skip=()):
     if a is None or b is None:
         return "one of them has no column profile"
     for k in a:
-        if a[k] != b.get(k):
+        if k not in skip and a[k] != b.get(k):
             return f"{k}: {a[k]!r} vs {b.get(k)!r}"[:300]
     return None
 
@@ -510,6 +556,30 @@ def oracle(case, obs, literal=False):
         if q != wq:
             return (f"profiles must be additive: cut at {k}: profile(a)+profile(b) has count/missing/minimum/maximum {q}, "
                     f"profile(a++b) has {wq}")
+    # the operands of an addition still describe their own batches afterwards, and adding them again (or adding
+    # copies of them) gives the same sum
+    af = obs.get("after")
+    if af is not None:
+        k = case["cut"]
+        # F-C15-12 (fixed in /repo 9c1d3da: __add__ merged into one operand's own histogram list) - the histogram clauses of
+        # the re-read operands and of the repeated sums are judged like every other clause
+        for side, part in (("left", cells[:k]), ("right", cells[k:])):
+            why = _judge(t, part, af[side], af[side + "_estimate"], literal)
+            if why is not None:
+                return f"after profile(a) + profile(b) at cut {k} the {side} operand's profile is read again: {why}"
+        for label, again in [("adding the same two profiles a second time", af["again"]),
+                             ("adding copy.copy(a) and a pickled copy of b", af["copies"][0]),
+                             ("adding deep copies of a and b", af["copies"][1])]:
+            diff = _first_difference(obs["cut"], again)
+            if diff is not None:
+                return f"profile(a) + profile(b) at cut {k} must not depend on what was added before or on which copy is used: {label} gives a different sum - {diff}"
+    # the profile of a frame is read off that frame's own schema and rows: a two-column frame (the column, the
+    # column reversed) and its mirror with the names swapped, profiled one after the other
+    for swapped, nm, rev, prof, est in obs.get("pair", []):
+        why = _judge(t, cells[::-1] if rev else cells, prof, est, literal)
+        if why is not None:
+            return (f"a two-column frame named {('d', 'c') if swapped else ('c', 'd')} holding (column, column reversed)"
+                    f"{', profiled right after the frame with the same records named (c, d),' if swapped else ''} column {nm!r}: {why}")
     # the same clauses for the frame as it is at every later moment: one frame object, profiled, grown by
     # DataFrame.append, profiled again ...  ("for every column": the column the frame holds when it is profiled)
     prev = None
@@ -741,15 +811,47 @@ def _obs_term(case, obs, val, vtype, edges=None):
         if ft is None:
             return None
         final = "(Some %s)" % ft
-    return "(mko %s %s %s %s %s %s : obs %s)" % (w, L.opt(cut), L.lst(quads), L.Z(est), L.lst(reads), final, vtype)
+    # the operands after the sum at the designated cut; later sums only when they differ from the first one in a
+    # field the model compares (sums are compared on every field but the histogram's content)
+    after = "None"
+    af = obs.get("after")
+    if af is not None and cut is not None:
+        lt, rt = (None if af[x] is None else _profile_term(af[x], val) for x in ("left", "right"))
+        if lt is None or rt is None:
+            return None
+
+        def same_sum(x, y):
+            return x is not None and y is not None and all(x[k] == y[k] for k in x if k != "histogram") and bool(x["histogram"]) == bool(y["histogram"])
+
+        sums = []
+        for x in [af["again"]] + list(af["copies"]):
+            if not same_sum(obs["cut"], x):
+                xt = None if x is None else _profile_term(x, val)
+                if xt is None:
+                    return None
+                sums.append(xt)
+        after = "(Some (%s, %s, %s))" % (lt, rt, L.lst(sums))
+    pair = []
+    for swapped, nm, rev, prof, _e in obs.get("pair") or []:
+        if prof is None:
+            return None
+        if not rev and prof == obs["whole"]:
+            pt = "None"
+        else:
+            xt = _profile_term(prof, val)
+            if xt is None:
+                return None
+            pt = "(Some %s)" % xt
+        pair.append(L.pair(L.boolean(swapped), L.N(0 if nm == "c" else 1), pt))
+    return "(mko %s %s %s %s %s %s %s %s : obs %s)" % (w, L.opt(cut), L.lst(quads), L.Z(est), L.lst(reads), final, after, L.lst(pair), vtype)
 
 
 FALSE_CASE = {
-    "ordx": "(true, (1)%Z, (1)%Z, ([] : list (option xcell)), 1%nat, ([] : list (Z * N * N)), ([] : list (N * Z)), mko (empty_profile (1)%Z (0)%Z) None [] (0)%Z [] None)",
-    "ord": "(true, (1)%Z, ([] : list (option Z)), 1%nat, ([] : list (Z * N)), ([] : list (N * Z)), mko (empty_profile (1)%Z (0)%Z) None [] (0)%Z [] None)",
-    "text": "(([] : list (option (list N))), 1%nat, [], mko (empty_profile (1)%Z (0)%Z) None [] (0)%Z [] None)",
-    "bool": "(([] : list (option bool)), 1%nat, mko (empty_profile (1)%Z (0)%Z) None [] (0)%Z [] None)",
-    "plain": "(false, ([] : list ucell), 1%nat, mko (empty_profile (1)%Z (0)%Z) None [] (0)%Z [] None)",
+    "ordx": "(true, (1)%Z, (1)%Z, ([] : list (option xcell)), 1%nat, ([] : list (Z * N * N)), ([] : list (N * Z)), mko (empty_profile (1)%Z (0)%Z) None [] (0)%Z [] None None [])",
+    "ord": "(true, (1)%Z, ([] : list (option Z)), 1%nat, ([] : list (Z * N)), ([] : list (N * Z)), mko (empty_profile (1)%Z (0)%Z) None [] (0)%Z [] None None [])",
+    "text": "(([] : list (option (list N))), 1%nat, [], mko (empty_profile (1)%Z (0)%Z) None [] (0)%Z [] None None [])",
+    "bool": "(([] : list (option bool)), 1%nat, mko (empty_profile (1)%Z (0)%Z) None [] (0)%Z [] None None [])",
+    "plain": "(false, ([] : list ucell), 1%nat, mko (empty_profile (1)%Z (0)%Z) None [] (0)%Z [] None None [])",
 }
 
 
@@ -1030,6 +1132,9 @@ def corpus():
     yield {"type": "VARCHAR", "values": [None], "cut": None}                                   # F-C15-4
     yield {"type": "VARCHAR", "values": ["\u00e9", "zz", "b", "abc", "a", ""], "cut": 3}        # F-C15-5 (DESIGN section 9 witness)
     yield {"type": "VARCHAR", "values": ["abc", "\u00e9"], "cut": 1}                           # F-C15-5 'abc' encoded above '\u00e9'
+    yield {"type": "INTEGER", "values": [3, 1, 2], "cut": 1}                                   # F-C15-12 a + b grew b's histogram (right operand has more bins)
+    yield {"type": "DOUBLE", "values": [500000, 2500000, 1000000], "cut": 2}                   # F-C15-12 left operand has more bins: a's histogram grew
+    yield {"type": "DATE", "values": [0, 18262], "cut": 1}                                     # F-C15-12 tie: merged into the left operand
     # every type once, with nulls, and frames crossing the frequent-value / sketch sizes
     yield {"type": "INTEGER", "values": list(range(40)), "cut": 20}
     yield {"type": "INTEGER", "values": list(range(31, -1, -1)) + [None], "cut": 32}
